@@ -35,11 +35,13 @@ CONSTANTS
     Vocab(_, _),     \* Vocab(shape, ws): the set of driver records to choose from
     MaxDrv,          \* maximal number of records in a configuration
     MaxRich,         \* maximal number of records that are not plain slices / primitive outputs
+    Keep(_),         \* further (prefix-closed) restriction on the record sequence of a stage
     UseExplicit,     \* TRUE: the initial states are the hand-written configurations `Explicit`
     Mutant           \* "" | "conflict_per_signal" | "cycle_per_signal" | "branch_own_test_only"   (seeded oracle errors)
 
-VARIABLES shape, ws, drv, last, exp, expr      \* exp / expr: allowed outcomes in program order drv / Reverse(drv)
-vars == <<shape, ws, drv, last, exp, expr>>
+VARIABLES shape, ws, drv, last, exp, expr,     \* exp / expr: allowed outcomes in program order drv / Reverse(drv)
+          ofree                                \* TRUE: no driver assigns a bit twice, exp holds for EVERY statement order
+vars == <<shape, ws, drv, last, exp, expr, ofree>>
 
 XW == 3
 Domains == {"comb", "d1", "d2"}
@@ -75,6 +77,8 @@ Conflict(w, d) ==
 OpBits(w, a, n) == IF a = <<>> THEN <<>> ELSE [i \in 1..Min2(n, W(w, a[1]) - a[2]) |-> <<a[1], a[2] + i - 1>>]
 One(S, i) == IF i <= Len(S) THEN {S[i]} ELSE {}
 
+CatBits(w, r, n) == OpBits(w, r.a, 1) \o OpBits(w, r.b, n - 1)
+
 (* Rhs(w, r)[i]: the signal bits result bit i (1-based, least significant first) depends on;      *)
 (* Len(Rhs) is the width of the expression; an assignment truncates / zero-extends to the target  *)
 Rhs(w, r) ==
@@ -90,6 +94,13 @@ Rhs(w, r) ==
               LET A1 == OpBits(w, r.a, 1)
                   B1 == OpBits(w, r.b, n - 1) IN
               [i \in 1..(Len(A1) + Len(B1)) |-> IF i <= Len(A1) THEN {A1[i]} ELSE {B1[i - Len(A1)]}]
+         \* multi-bit bit-precise cells whose bits have unrelated sources:  ~Cat(..)   Cat(..) ^ x[0:n]  (& |)
+         \*   Mux(x[2], Cat(..), x[0:n])     with Cat(..) = Cat(a[o], b[o : o + n - 1])
+         [] r.f = "notcat" -> LET C == CatBits(w, r, n) IN [i \in 1..Len(C) |-> {C[i]}]
+         [] r.f \in {"andcat", "orcat", "xorcat"} ->
+              LET C == CatBits(w, r, n) IN [i \in 1..Max2(Len(C), Len(X)) |-> One(C, i) \cup One(X, i)]
+         [] r.f = "muxcat" ->
+              LET C == CatBits(w, r, n) IN [i \in 1..Max2(Len(C), Len(X)) |-> {<<0, 2>>} \cup One(C, i) \cup One(X, i)]
          [] r.f = "mux" ->                                   \* Mux(a[o], b[...], x[0:n])
               LET S == OpBits(w, r.a, 1) IN
               [i \in 1..Max2(Len(B), Len(X)) |-> Elems(S) \cup One(B, i) \cup One(X, i)]
@@ -99,6 +110,11 @@ Rhs(w, r) ==
          \* word-level operators: every input bit reaches every output bit
          [] r.f = "add" -> [i \in 1..(Max2(Len(A), Len(B)) + 1) |-> Elems(A) \cup Elems(B)]
          [] r.f \in {"eq", "lt"} -> [i \in 1..1 |-> Elems(A) \cup Elems(B)]
+         [] r.f = "shl" ->                                   \* a[...] << b[o]   (one-bit amount)
+              LET B1 == OpBits(w, r.b, 1) IN [i \in 1..(Len(A) + 1) |-> Elems(A) \cup Elems(B1)]
+         [] r.f \in {"any", "xorr"} -> [i \in 1..1 |-> Elems(A)]                    \* reductions a[...].any() / .xor()
+         [] r.f = "bsel" ->                                  \* a[...].bit_select(b[o], 1)
+              LET B1 == OpBits(w, r.b, 1) IN [i \in 1..1 |-> Elems(A) \cup Elems(B1)]
 
 TestBits(w, t) ==
     CASE t = <<>> -> {}
@@ -175,6 +191,9 @@ Admissible(d) ==
             d[i].m = d[j].m /\ d[i].c[2] = d[j].c[2] /\ d[i].c[3] = d[j].c[3] /\ d[i].c[4] = d[j].c[4]
     /\ \A i, j \in 1..Len(d) : IsBranch(d[i]) /\ d[j].c = <<>> /\ d[i].m = d[j].m /\ d[i].k = d[j].k => ~Overlap(d[i], d[j])
 
+(* program order matters only when one driver assigns a bit twice *)
+SameDriverOverlap(d) == \E i, j \in 1..Len(d) : i < j /\ d[i].k \in Domains /\ d[i].k = d[j].k /\ d[i].m = d[j].m /\ Overlap(d[i], d[j])
+
 VocSeq == [sh \in Shapes, w \in SigWs |-> SetToSeq(Vocab(sh, w))]
 (* the hierarchy table is handed to the harness (which builds the modules) instead of being repeated there *)
 ASSUME PrintT(<<"parents", [sh \in {"top", "child", "sib", "chain"} |-> Parents(sh)]>>)
@@ -246,16 +265,18 @@ Init ==
     THEN \E c \in Explicit :
             /\ shape = c.shape /\ ws = c.ws /\ drv = c.drv /\ last = 1000
             /\ exp = Outcome(c.ws, c.drv) /\ expr = Outcome(c.ws, Reverse(c.drv))
+            /\ ofree = ~SameDriverOverlap(c.drv)
     ELSE /\ shape \in Shapes /\ ws \in SigWs /\ drv = <<>> /\ last = 0
-         /\ exp = {"ok"} /\ expr = {"ok"}
+         /\ exp = {"ok"} /\ expr = {"ok"} /\ ofree = TRUE
 
 Add(j) ==
     LET d == Append(drv, VocSeq[shape, ws][j]) IN
     /\ Len(drv) < MaxDrv
     /\ NRich(d) <= MaxRich
-    /\ Admissible(d)
+    /\ Admissible(d) /\ Keep(d)
     /\ drv' = d /\ last' = j
     /\ exp' = Outcome(ws, d) /\ expr' = Outcome(ws, Reverse(d))
+    /\ ofree' = ~SameDriverOverlap(d)
     /\ UNCHANGED <<shape, ws>>
 
 Next == ~UseExplicit /\ \E j \in (last + 1)..Len(VocSeq[shape, ws]) : Add(j)
@@ -273,8 +294,20 @@ OutcomeShape ==
     /\ "ok" \notin exp <=> cf \/ cl
     /\ cl => cy
     /\ ("driver_conflict" \in expr <=> cf) /\ ("comb_cycle" \in expr <=> cy)       \* only liveness depends on the order
-(* program order matters only when one driver assigns a bit twice *)
-SameDriverOverlap(d) == \E i, j \in 1..Len(d) : i < j /\ d[i].k \in Domains /\ d[i].k = d[j].k /\ d[i].m = d[j].m /\ Overlap(d[i], d[j])
+(* The verdict does not depend on the order in which the statements were written: the conflict and the full   *)
+(* dependency graph never do; the live graph (hence the whole allowed set) does not as soon as no driver       *)
+(* assigns a bit twice.  Checked for every permutation of up to 3 records, for rotations and reversal beyond.  *)
+Perms(n) == IF n <= 3 THEN Permutations(1..n)
+            ELSE {[i \in 1..n |-> ((i + k - 1) % n) + 1] : k \in 0..(n - 1)} \cup {[i \in 1..n |-> n + 1 - i]}
+Permuted(d, p) == [i \in 1..Len(d) |-> d[p[i]]]
+PermutationInvariance ==
+    LET cf == Conflict(ws, drv)
+        cy == Cycle(ws, drv) IN
+    /\ ofree = ~SameDriverOverlap(drv)
+    /\ \A p \in Perms(Len(drv)) :
+          LET d == Permuted(drv, p) IN
+          /\ Conflict(ws, d) = cf /\ Cycle(ws, d) = cy
+          /\ ofree => Outcome(ws, d) = exp
 HasBranch(d) == \E i \in 1..Len(d) : IsBranch(d[i])
 OrderIrrelevant ==
     ~SameDriverOverlap(drv) => exp = expr /\ (~HasBranch(drv) => CycleLive(ws, drv) = Cycle(ws, drv))
@@ -350,7 +383,8 @@ PlaceVocab(sh, w, kinds, ranges(_)) ==
       \cup {Out(m, k, t[1], t[2], t[3]) : m \in 1..NMods(sh), k \in kinds \cap OutKinds, t \in T}
 AllKinds == Domains \cup OutKinds
 (* quick: all ranges for the small shapes, the characteristic ones for three modules *)
-VocabPlaceQ(sh, w) == IF NMods(sh) <= 2 THEN PlaceVocab(sh, w, AllKinds, AllRanges) ELSE PlaceVocab(sh, w, AllKinds, FewRanges)
+VocabPlaceQ(sh, w) == IF NMods(sh) = 1 THEN PlaceVocab(sh, w, AllKinds, AllRanges)
+                      ELSE IF NMods(sh) = 2 THEN PlaceVocab(sh, w, AllKinds, MidRanges) ELSE PlaceVocab(sh, w, AllKinds, FewRanges)
 VocabPlaceAll(sh, w) == PlaceVocab(sh, w, AllKinds, AllRanges)
 VocabPlaceFew(sh, w) == PlaceVocab(sh, w, AllKinds, FewRanges)
 VocabPlaceMid(sh, w) == PlaceVocab(sh, w, AllKinds, MidRanges)
@@ -399,6 +433,42 @@ BranchRecs(sh, w, chains, kinds) ==
 ClosingRecs(sh, w) == {Plain(NMods(sh), "comb", t[1], t[2], t[3], a) : t \in Targets(w, DepRanges), a \in SrcsX(w)}
 VocabBranchQ(sh, w) == BranchRecs(sh, w, ChainsQ(w), {"comb"}) \cup ClosingRecs(sh, w)
 VocabBranchT(sh, w) == BranchRecs(sh, w, ChainsT(w), {"comb", "d1"}) \cup ClosingRecs(sh, w)
+
+(* mixed designs: ONE cluster on signal 1 (a multi-bit bit-precise or word-level cell whose output bits feed     *)
+(* other bits of the same signal: downward, upward, or back into themselves through a non-first bit; closed or    *)
+(* not by plain records) next to an UNRELATED statement on signal 2 computed from the input x only (word-level,   *)
+(* bit-precise, conditional, or a primitive output), in the same or in another module, in every statement order   *)
+KeepAll(d) == TRUE
+KeepMix(d) == /\ Cardinality({i \in 1..Len(d) : d[i].s = 2}) <= 1
+              /\ Cardinality({i \in 1..Len(d) : d[i].s = 1 /\ Rich(d[i])}) <= 1
+              /\ Cardinality({i \in 1..Len(d) : d[i].s = 1 /\ ~Rich(d[i])}) <= 1
+W32 == {<<3, 2>>}
+S1(w) == {<<1, o>> : o \in 0..(w[1] - 1)}
+Wide(wd) == {r \in AllRanges(wd) : r[2] - r[1] >= 2}
+UnrelatedRecs(sh, w, forms, outs) ==
+    LET U(m, f, a, b, c) == Rec(m, "comb", 2, 0, w[2], f, a, b, c) IN
+    UNION {{U(m, f, X0, <<0, 1>>, <<>>) : f \in forms \ {"if"}}
+             \cup (IF "if" \in forms THEN {U(m, "const", <<>>, <<>>, <<1, 1, 0, <<X0, <<0, 1>>, <<>>>>>>)} ELSE {})
+             \cup {Out(m, k, 2, 0, w[2]) : k \in outs} : m \in {1, NMods(sh)}}
+ClusterRecs(sh, w, forms, ranges, catops) ==
+    LET M == NMods(sh)
+        T == {<<1, rg[1], rg[2]>> : rg \in ranges} IN
+    {Rec(M, "comb", t[1], t[2], t[3], f, a, X0, <<>>) : t \in T, a \in S1(w), f \in forms \cap {"not", "and", "or", "xor", "add", "eq", "shl"}}
+      \cup {Rec(M, "comb", t[1], t[2], t[3], f, a, <<0, 1>>, <<>>) : t \in T, a \in S1(w), f \in forms \cap {"mux"}}
+      \cup {Rec(M, "comb", t[1], t[2], t[3], f, X0, b, <<>>) : t \in T, b \in S1(w), f \in forms \cap {"mux", "muxe"}}
+      \cup {Rec(M, "comb", t[1], t[2], t[3], f, ab[1], ab[2], <<>>) :
+                t \in T, f \in forms \cap {"notcat", "andcat", "orcat", "xorcat", "muxcat"}, ab \in catops}
+MixClosers(sh, w) == {Plain(NMods(sh), "comb", 1, rg[1], rg[2], a) : rg \in BitRanges(w[1]), a \in S1(w)}
+VocabMixQ(sh, w) ==
+    UnrelatedRecs(sh, w, {"add", "eq", "xorr", "mux", "if"}, {"instance_output"})
+      \cup ClusterRecs(sh, w, {"not", "xor", "add", "notcat", "muxcat"}, {<<0, 2>>, <<0, 3>>},
+                     {<<X0, a>> : a \in S1(w)} \cup {<<a, X0>> : a \in S1(w)})
+      \cup MixClosers(sh, w)
+VocabMixT(sh, w) ==
+    UnrelatedRecs(sh, w, {"add", "eq", "lt", "shl", "any", "xorr", "bsel", "not", "and", "mux", "if"}, OutKinds)
+      \cup ClusterRecs(sh, w, {"not", "and", "or", "xor", "mux", "muxe", "add", "eq", "shl", "notcat", "andcat", "orcat", "xorcat", "muxcat"},
+                     Wide(w[1]), (S1(w) \cup {X0}) \X (S1(w) \cup {X0}))
+      \cup MixClosers(sh, w)
 
 (* longer paths through plain bit-to-bit records *)
 VocabChain(sh, w) == PlainDeps(sh, w, BitRanges)
